@@ -110,6 +110,26 @@ func (k L2OracleHandler) UpdateOracle(ctx context.Context, height uint64, extCom
 		return err
 	}
 
+	// L1 validators may price pairs this chain does not track. The vote aggregator looks every id of
+	// a vote up while ranging over a Go map, and an unknown id makes it reload all currency pairs
+	// from the gas-metered store, so the gas consumed (and, under a tight gas limit, the outcome)
+	// would depend on the map iteration order. Drop the untracked ids before aggregating.
+	tracked := make(map[uint64]struct{})
+	for _, cp := range k.oracleKeeper.GetAllCurrencyPairs(sdkCtx) {
+		id, err := currencypair.CurrencyPairToHashID(cp.String())
+		if err != nil {
+			return err
+		}
+		tracked[id] = struct{}{}
+	}
+	for _, vote := range votes {
+		for id := range vote.OracleVoteExtension.Prices {
+			if _, ok := tracked[id]; !ok {
+				delete(vote.OracleVoteExtension.Prices, id)
+			}
+		}
+	}
+
 	// the currency pair strategy of the vote aggregator caches per block height in process
 	// memory, so the gas consumed here (and, under a tight gas limit, the outcome) would depend
 	// on what this process executed before; use an aggregator with a cold cache for every update.
